@@ -270,4 +270,76 @@ IsSubsequence(s, t) ==
   /\ \A i, j \in DOMAIN s : i < j =>
         \E a, b \in DOMAIN t : a < b /\ t[a] = s[i] /\ t[b] = s[j]
 
+
+(***************************************************************************)
+(* Iterator (log.go l.416-503).  Options record                            *)
+(*   o = [lte |-> seq, lt |-> seq, gte |-> id or 0, gt |-> id or 0,        *)
+(*        amount |-> n or -1]                                              *)
+(* Result record [out, closed, err, panic].                                *)
+(* IterAlgo transcribes the code (after the repairs: the early return for  *)
+(* amount = 0 is gone and the amount trim is clamped); IterMeetsSpec is    *)
+(* the declarative statement of C15.                                       *)
+(***************************************************************************)
+IterUnknown(U, L, o) ==
+  IF o.lte # <<>> THEN \E x \in SeqRange(o.lte) : x \notin L
+  ELSE IF o.lt # <<>> THEN \E c \in SeqRange(o.lt) : c \notin L \/ \E n \in SeqRange(U[c].next) : n \notin L
+  ELSE FALSE
+
+IterAlgo(U, fn, L, headsRaw, o) ==
+  IF IterUnknown(U, L, o)
+  THEN [out |-> <<>>, closed |-> FALSE, err |-> "notfound", panic |-> FALSE]
+  ELSE LET start == IF o.lte # <<>> THEN o.lte
+                    ELSE IF o.lt # <<>> THEN U[o.lt[Len(o.lt)]].next   \* only the last LT entry counts
+                    ELSE SortIds(U, fn, headsRaw, TRUE)
+           endId == IF o.gte # 0 THEN o.gte ELSE o.gt
+           count == IF endId = 0 /\ o.amount >= 0 THEN o.amount ELSE -1
+           e0 == Traverse(U, fn, L, DedupSeq(start, {}), count, endId)
+           e1 == IF o.gt # 0 /\ o.gte = 0 /\ Len(e0) > 0 THEN SubSeq(e0, 1, Len(e0) - 1) ELSE e0
+           e2 == IF endId # 0 /\ o.amount >= 0 /\ o.amount < Len(e1)
+                 THEN SubSeq(e1, Len(e1) - o.amount + 1, Len(e1)) ELSE e1
+       IN [out |-> e2, closed |-> TRUE, err |-> "", panic |-> FALSE]
+
+IterUpper(U, headSet, o) ==
+  IF o.lte # <<>> THEN SeqRange(o.lte)
+  ELSE IF o.lt # <<>> THEN SeqRange(U[o.lt[1]].next)
+  ELSE headSet
+
+IterRange(U, L, Up) == (Up \cup UNION {PastOf(U, x) : x \in Up}) \cap L
+
+\* the options are inside the quantifier of C15: at most one exclusive upper bound, not both kinds of
+\* upper bound, not both kinds of lower bound, and the lower bound (if any) inside the selected range
+IterInScope(U, L, headSet, o) ==
+  /\ Len(o.lt) <= 1
+  /\ ~(o.lte # <<>> /\ o.lt # <<>>)
+  /\ ~(o.gte # 0 /\ o.gt # 0)
+  /\ IterUnknown(U, L, o) \/
+       LET lower == IF o.gte # 0 THEN o.gte ELSE o.gt
+       IN lower = 0 \/ lower \in IterRange(U, L, IterUpper(U, headSet, o))
+
+IterMeetsSpec(U, fn, L, headSet, o, res) ==
+  /\ ~res.panic
+  /\ IterUnknown(U, L, o) <=> res.err # ""
+  /\ res.err = "" => res.closed
+  /\ res.err = "" =>
+       LET Up     == IterUpper(U, headSet, o)
+           Rng    == IterRange(U, L, Up)
+           lower  == IF o.gte # 0 THEN o.gte ELSE o.gt
+           strict == StrictOn(U, fn, Rng)
+           Cut    == IF lower = 0 THEN Rng
+                     ELSE {e \in Rng : e = lower \/ Cmp(fn, U[e], U[lower]) > 0} \ (IF o.gt # 0 THEN {lower} ELSE {})
+           out    == res.out
+           O      == SeqRange(out)
+           antichain == \A a, b \in Up : a \notin PastOf(U, b)
+       IN /\ Len(out) = Cardinality(O)                                   \* no duplicates
+          /\ O \subseteq Rng
+          /\ o.amount >= 0 => Len(out) <= o.amount
+          /\ strict =>
+               /\ \A i, j \in DOMAIN out : i < j => Cmp(fn, U[out[i]], U[out[j]]) > 0   \* newest first
+               /\ O \subseteq Cut
+               /\ IF o.amount < 0 THEN O = Cut
+                  ELSE /\ (lower # 0 \/ antichain) => Len(out) = MinInt(o.amount, Cardinality(Cut))
+                       /\ IF lower = 0
+                          THEN \A e \in Cut \ O, f \in O : Cmp(fn, U[f], U[e]) > 0      \* the newest
+                          ELSE \A e \in Cut \ O, f \in O : Cmp(fn, U[e], U[f]) > 0      \* nearest the lower bound
+
 =============================================================================
